@@ -34,6 +34,25 @@ CHECKS.update({
           "DESIGN.md section 5, C18"),
 })
 
+CHECKS.update({
+ "C04": E("runtime oracle on single calls (nearest 2pi-representative, documented cost order, superset of plain inverse, previous-comes-back-first) plus history checker over dense joint-space trajectories where each call's previous is the preceding first answer",
+          "Exploration: 1.5e5 / 6e6 single calls x two continuation entry points, 600 / 4e4 trajectories of 200..1500 steps; all weight modes and the sentinel; tracking of positions and increments (no branch switch, no 2pi jump).",
+          "Trusted base: documented cost formula as restated in DESIGN.md; refmodel chain and singularity measures; elbow/shoulder margin 0.1 on trajectories.",
+          "DESIGN.md section 5, C04"),
+ "C05": E("runtime oracle: kinematic_singularity vs geometric collinearity of the J4/J6 axes of the reference chain; continuity of inverse_continuing at exactly singular poses under the property's preconditions",
+          "Exploration: 2e5 / 1e7 detection cases (k=-2..2, both sides of the band, raw-J5 decoys, offsets, J5 signs) and 1.5e5 / 6e6 continuity cases of which those with arm sensitivity <= 3 rad/m and a single singular branch are evaluated.",
+          "Trusted base: refmodel chain; sensitivity bound 3 rad/m calibrated on this solver (first failures at ~7 rad/m).",
+          "DESIGN.md section 5, C05"),
+ "C06": E("runtime oracle: every answer of the 5-DOF entry points (and of inverse/inverse_continuing on dof-5 robots), bare and behind axial tools / bases, checked for tool point, tool axis, verbatim J6, presence of the generating J1..J5, non-emptiness",
+          "Exploration: 1e5 / 5e6 robot x stack x q x J6 cases, 2 or 4 entry points each.",
+          "Trusted base: refmodel chain and reference stack composition.",
+          "DESIGN.md section 5, C06"),
+ "C08": E("differential runtime oracle: the same wrapper stack built with and without limits; constrained answers judged by the reference arc oracle, compliant unconstrained answers must be present; constraints() delegation",
+          "Exploration: 4e5 / 1.2e7 cases over stacks of depth 0..3 (Tool/Base/Frame/Parallelogram), dof 5/6, four entry points, eight limit classes, three weight modes.",
+          "Trusted base: refmodel::arc_contains; parallelogram answers are mapped back to the wrapped robot's coordinates (assumption recorded in evidence).",
+          "DESIGN.md section 5, C08"),
+})
+
 def main():
     props = [json.loads(l) for l in open('/verif/properties.jsonl')]
     hooks_commits = subprocess.run(['git','-C','/repo','log','--format=%H %s'],capture_output=True,text=True).stdout.splitlines()
